@@ -97,6 +97,9 @@ pub const ZERO_SIZED: &[(&str, &str, &[usize], usize)] = &[
     ("for over empty array", "pub fn main(x: [u8; 0], y: u8) -> u8 {\n  let mut s = y;\n  for e in x {\n    s = s + e;\n  }\n  s\n}\n", &[0, 8], 8),
     ("unit param between", "pub fn main(a: u8, n: (), b: u8) -> u8 {\n  a ^ b\n}\n", &[8, 0, 8], 8),
     ("two leading zero-sized params", "pub fn main(x: (), z: [u8; 0], b: u8) -> u8 {\n  b\n}\n", &[0, 0, 8], 8),
+    ("more parties than input bits", "pub fn main(a: (), b: [u8; 0], c: (), d: bool) -> bool {\n  d\n}\n", &[0, 0, 0, 1], 1),
+    ("more parties than input bits, with gates", "pub fn main(a: (), b: (), c: (), d: bool, e: bool) -> (bool, bool) {\n  (!(d & e) ^ d, d | e)\n}\n", &[0, 0, 0, 1, 1], 2),
+    ("zero-sized parties after the bits", "pub fn main(d: bool, a: (), b: [u8; 0], c: ()) -> bool {\n  !d\n}\n", &[1, 0, 0, 0], 1),
     ("join a wider n2m1", "pub fn main(a: [(u8, u16); 2], b: [(u8, u8); 1]) -> [(bool, (u8, u16), (u8, u8)); 2] {\n  join(a, b)\n}\n", &[48, 16], 82),
     ("join a wider n1m2", "pub fn main(a: [(u8, u16); 1], b: [(u8, u8); 2]) -> [(bool, (u8, u16), (u8, u8)); 2] {\n  join(a, b)\n}\n", &[24, 32], 82),
     ("join a wider n3m2", "pub fn main(a: [(u8, u16, bool); 3], b: [(u8, u8); 2]) -> [(bool, (u8, u16, bool), (u8, u8)); 4] {\n  join(a, b)\n}\n", &[75, 32], 168),
@@ -461,7 +464,7 @@ pub fn run(tier: Tier) -> i32 {
     let supplied_evals = AtomicU64::new(0);
     crate::props::c12::supplied_value_menu(&supplied_cases, &supplied_evals, &coll);
     // (a) all fully annotated programs of the other families
-    let (fjobs, plan) = c01::family_jobs(tier, &["E-small", "S", "P", "D"]);
+    let (fjobs, plan) = c01::family_jobs(tier, &["E-small", "S", "P", "D", "X", "A"]);
     let fr = c01::run_jobs(fjobs, c01::attribution_for, &budget, plan);
     for v in fr.coll.violations.lock().unwrap().iter() {
         coll.push(v.clone());
